@@ -101,6 +101,7 @@ def run(ctx):
                         "LM: the initial damping nu = ||J^T r|| (a square root) is supplied to the model as the float the code computes"]
 
     check_prox(ctx, rs, sc, ProjectNonnegative, ProjectBox, ProximalL1)
+    check_prox_classes(ctx, rs, sc, ProjectNonnegative, ProjectBox, ProximalL1)
     check_cgls(ctx, rs, sc, CGLS)
     check_pcgls(ctx, rs, sc, PCGLS, cuqi)
     check_fista(ctx, rs, sc, FISTA, ProjectNonnegative, ProjectBox, ProximalL1)
@@ -156,6 +157,85 @@ def check_prox(ctx, rs, sc, ProjectNonnegative, ProjectBox, ProximalL1):
         oracle_prox(ctx, key, desc, kind, x, g, lo, up, y)
 
 
+def check_prox_classes(ctx, rs, sc, ProjectNonnegative, ProjectBox, ProximalL1):
+    """input classes for the three maps: exact zeros / ties / bounds, strength exactly 0 (identity), signed zeros,
+    dtypes and containers, memory layouts, read-only arrays, 2-D batches, scalar types of gamma, positional vs keyword
+    arguments; the caller's arrays stay untouched and the result is a new array.  Reference: the definition (ref_prox,
+    coordinatewise brute force).  Failure key = the tie's key for that map."""
+    keyof = {"l1": "ProximalL1:values", "nonneg": "ProjectNonnegative:values", "box": "ProjectBox:values"}
+    for rep_ in range(6 * sc):
+        n = int(rs.randint(2, 7))
+        base = rs.randint(-6, 7, size=n) / 2.0
+        base[int(rs.randint(0, n))] = 0.0                              # always an exact zero
+        if rep_ % 2:
+            base[int(rs.randint(0, n))] = -0.0
+        lo = rs.randint(-4, 1, size=n) / 2.0; up = lo + rs.randint(0, 5, size=n) / 2.0
+        base[int(rs.randint(0, n))] = lo[0]                            # a bound value somewhere
+        gammas = [0.0, 0, np.float32(0.5), np.array(0.5), abs(float(base[1])), 1.5, True]
+        def layouts(v):
+            big = np.zeros(2 * len(v)); big[::2] = v
+            ro = v.copy(); ro.setflags(write=False)
+            out = {"float64": v.copy(), "strided": big[::2], "negstride": v[::-1].copy()[::-1], "readonly": ro, "list": v.tolist(),
+                   "batch2d-C": np.stack([v, -v], axis=1), "batch2d-F": np.asfortranarray(np.stack([v, -v], axis=1))}
+            if np.all(v == np.round(v)):
+                out["int64"] = v.astype(np.int64)
+            return out
+        for kind in ("l1", "nonneg", "box"):
+            v0 = base if kind != "l1" or rep_ % 3 else np.round(base)     # integer-valued now and then (int64 layout)
+            for lname, xin in layouts(v0).items():
+                for g in (gammas if kind == "l1" else [None]):
+                    if kind == "l1" and isinstance(xin, np.ndarray) and xin.dtype == np.int64 and float(g) != round(float(g)):
+                        continue
+                    xnum = np.asarray(xin, dtype=float)
+                    desc = {"op": kind, "x": xnum.tolist(), "layout": lname, "gamma": None if g is None else float(g), "gamma_type": type(g).__name__,
+                            "lower": lo.tolist() if kind == "box" else None, "upper": up.tolist() if kind == "box" else None}
+                    ctx.case("prox-class-" + kind, desc)
+                    key = keyof[kind]
+                    before = snap([xin]) if isinstance(xin, np.ndarray) else repr(xin)
+                    lo_, up_ = (lo, up) if xnum.ndim == 1 else (lo[:, None], up[:, None])
+                    try:
+                        with quiet():
+                            if kind == "l1":
+                                ys = [ProximalL1(xin, g), ProximalL1(xin, gamma=g), ProximalL1(x=xin, gamma=g)]
+                                ref = ref_prox("l1", {"lam": float(g)}, xnum, 1.0)
+                            elif kind == "nonneg":
+                                ys = [ProjectNonnegative(xin), ProjectNonnegative(x=xin)]
+                                ref = np.where(xnum > 0, xnum, 0.0)
+                            else:
+                                ys = [ProjectBox(xin, lo_, up_), ProjectBox(xin, lower=lo_, upper=up_), ProjectBox(xin, upper=up_, lower=lo_), ProjectBox(x=xin, lower=lo_, upper=up_)]
+                                ref = np.clip(xnum, lo_, up_)
+                    except Exception as e:
+                        ctx.fail(key, desc, ref_prox("l1", {"lam": 0.0}, xnum, 1.0).tolist() if kind == "l1" else "a value", repr(e)[:100],
+                                 "the map raises for an input that differs from a float64 vector only by layout / dtype / argument passing")
+                        continue
+                    after = snap([xin]) if isinstance(xin, np.ndarray) else repr(xin)
+                    if after != before:
+                        ctx.fail(key, desc, "input untouched", "changed", "the map modifies its argument")
+                    for y in ys:
+                        y = np.asarray(y, dtype=float)
+                        if y.shape != ref.shape or not np.all(np.isfinite(y)) or not np.array_equal(y, ref):
+                            ctx.disagree(key, desc, ref.tolist(), y.tolist(), "differs from the definition")
+                            ctx.fail(key, desc, ref.tolist(), y.tolist(),
+                                     "the map is not the Euclidean projection / proximal map it is named after (input class: exact zeros, bounds, zero strength, layout, dtype, argument passing)")
+                            break
+                    y0 = ys[0]
+                    if isinstance(y0, np.ndarray) and isinstance(xin, np.ndarray) and np.shares_memory(y0, xin):
+                        ctx.fail(key, desc, "a new array", "shares memory with the input", "the result aliases the caller's array")
+        # default bounds: positional / keyword / one-sided
+        xin = base.copy()
+        for nm, call, ref in (("none", lambda: ProjectBox(xin), np.clip(xin, 0, 1)), ("lower-only", lambda: ProjectBox(xin, lo), np.minimum(np.maximum(xin, lo), 1.0)),
+                              ("upper-only-kw", lambda: ProjectBox(xin, upper=up), np.minimum(np.maximum(xin, 0.0), up)),
+                              ("lower-None-kw", lambda: ProjectBox(xin, lower=None, upper=None), np.clip(xin, 0, 1)),
+                              ("zero-bounds", lambda: ProjectBox(xin, np.zeros(n), np.zeros(n)), np.zeros(n))):
+            desc = {"op": "box", "x": xin.tolist(), "bounds": nm, "lower": lo.tolist(), "upper": up.tolist()}
+            ctx.case("prox-class-box-defaults", desc)
+            with quiet():
+                y = np.asarray(call(), dtype=float)
+            if not np.array_equal(y, ref):
+                ctx.disagree("ProjectBox:values", desc, ref.tolist(), y.tolist(), "default / one-sided bounds")
+                ctx.fail("ProjectBox:values", desc, ref.tolist(), y.tolist(), "ProjectBox with default / one-sided / falsy bounds is not the projection onto the documented box")
+
+
 def oracle_prox(ctx, key, desc, kind, x, g, lo, up, y):
     for i, xi in enumerate(x):
         if kind == "l1":
@@ -173,7 +253,8 @@ def oracle_prox(ctx, key, desc, kind, x, g, lo, up, y):
             cands = [l, u, xi]
             feas = lambda z, l=l, u=u: l <= z <= u
         best = min(obj(z) for z in cands if feas(z))
-        if not feas(y[i]) or obj(y[i]) > best + 1e-12:
+        # NaN-safe: a non-finite output for finite input is never the minimiser
+        if not np.isfinite(y[i]) or not feas(y[i]) or not (obj(y[i]) <= best + 1e-12):
             ctx.fail(key, desc, f"coordinate {i}: minimiser value {best}", float(y[i]),
                      "the map is not the Euclidean projection / proximal map it is named after")
             return
@@ -320,7 +401,7 @@ def check_cgls(ctx, rs, sc, CGLS):
             oracle_cgls(ctx, key, desc, A, b, x0, shift, tol, maxit, xi, ki, mode)
         # the two operator forms of the implementation must give the identical result
         if "mat" in res and "fun" in res:
-            if res["mat"][1] != res["fun"][1] or not np.array_equal(res["mat"][0], res["fun"][0]):
+            if res["mat"][1] != res["fun"][1] or not np.array_equal(res["mat"][0], res["fun"][0], equal_nan=True):
                 k2 = f"CGLS:forms:{cls}"
                 ctx.disagree(k2, desc, "identical", [res["mat"][0].tolist(), res["fun"][0].tolist()], "matrix form and function form differ")
                 if res["mat"][1] != res["fun"][1] or not vclose(res["mat"][0], res["fun"][0], 1e-12):
@@ -480,7 +561,7 @@ def check_pcgls(ctx, rs, sc, PCGLS, cuqi):
                                  "run to convergence, the returned point does not solve the (shifted) normal equations")
                 elif not np.all(np.isfinite(xi)):
                     ctx.fail(key + ":finite", desc, "finite solution", xi.tolist(), "non-finite result on a well-posed problem")
-            if "mat" in res and "fun" in res and (res["mat"][1] != res["fun"][1] or not np.array_equal(res["mat"][0], res["fun"][0])):
+            if "mat" in res and "fun" in res and (res["mat"][1] != res["fun"][1] or not np.array_equal(res["mat"][0], res["fun"][0], equal_nan=True)):
                 k2 = f"PCGLS:forms:{cls}"
                 ctx.disagree(k2, desc, "identical", [res["mat"][0].tolist(), res["fun"][0].tolist()], "matrix form and function form differ")
                 if res["mat"][1] != res["fun"][1] or not vclose(res["mat"][0], res["fun"][0], 1e-12):
@@ -534,6 +615,10 @@ def check_fista(ctx, rs, sc, FISTA, ProjectNonnegative, ProjectBox, ProximalL1):
         A = gen_matrix(rs, m, n, sparse)
         b = rs.randint(-5, 6, size=m).astype(float)
         x0 = start_vector(rs, n)
+        if n >= 2 and i % 5 == 4:
+            # unobserved parameter (zero column) and a zero start: the argument of the proximal map has EXACT zeros
+            A = A.copy(); A[:, int(rs.randint(0, n))] = 0.0
+            x0 = np.zeros(n) if rs.rand() < 0.7 else x0
         fs = float(rs.choice([1.0, 1.0, 1.0, 2.0 ** -20, 2.0 ** -10, 2.0 ** 10, 2.0 ** 20]))        # data scale sweep (abstol is absolute by definition: it is swept with the scale and without)
         b = b * fs; x0 = x0 * fs
         L = np.linalg.norm(A, 2) ** 2
@@ -547,6 +632,14 @@ def check_fista(ctx, rs, sc, FISTA, ProjectNonnegative, ProjectBox, ProximalL1):
         meta.append((A, b, x0, t, kind, tok, proxf, par, adaptive, maxit, abstol, sparse, fs))
         lines.append(f"fista mat {qm(A)} {qv(b)} {qv(x0)} {tok} {q(t)} {q(abstol)} {maxit} {int(adaptive)}")
         lines.append(f"fista fun {qm(A)} {qm(A.T)} {qv(b)} {qv(x0)} {tok} {q(t)} {q(abstol)} {maxit} {int(adaptive)}")
+    # boundary class always present: regularisation strength exactly 0 (the proximal map must be the identity), an
+    # unobserved parameter (zero column) and a zero start -> the proximal map is evaluated at exact zeros
+    for adaptive in (False, True):
+        for lam0 in (0.0, 0.5):
+            A = np.array([[2.0, 0.0, 1.0], [1.0, 0.0, 3.0], [0.0, 0.0, 1.0], [1.0, 0.0, -1.0]]); b = np.array([1.0, 2.0, 3.0, -1.0]); x0 = np.zeros(3)
+            meta.append((A, b, x0, 2.0 ** -4, "l1", f"l1:{q(lam0)}", (lambda x, g, lam0=lam0: ProximalL1(x, lam0 * g)), {"lam": lam0}, adaptive, 9, 1e-14, False, 1.0))
+            lines.append(f"fista mat {qm(A)} {qv(b)} {qv(x0)} l1:{q(lam0)} {q(2.0 ** -4)} {q(1e-14)} 9 {int(adaptive)}")
+            lines.append(f"fista fun {qm(A)} {qm(A.T)} {qv(b)} {qv(x0)} l1:{q(lam0)} {q(2.0 ** -4)} {q(1e-14)} 9 {int(adaptive)}")
     outs = ctx.lean.drive(lines)
     for idx, (A, b, x0, t, kind, tok, proxf, par, adaptive, maxit, abstol, sparse, fs) in enumerate(meta):
         m, n = A.shape
@@ -580,12 +673,14 @@ def check_fista(ctx, rs, sc, FISTA, ProjectNonnegative, ProjectBox, ProximalL1):
                 oracle_fista_step(ctx, key + ":iterate", desc, A, b, x0, t, kind, par, adaptive, maxit, abstol, FISTA, op, proxf)
             # oracle (every case): a return before maxit means |x_new - y| <= abstol, hence (the prox-gradient map being
             # non-expansive for t <= 1/|A|^2) the returned point is an abstol-approximate fixed point: |x - T(x)| <= abstol
+            if not np.all(np.isfinite(xi)):
+                ctx.fail(key + ":finite", desc, "finite iterate", xi.tolist(), "returned point is not finite although data, start and regulariser are")
             if ki < maxit and t * np.linalg.norm(A, 2) ** 2 <= 1.0 and np.all(np.isfinite(xi)):
                 Tx = ref_prox(kind, par, xi - t * (A.T @ (A @ xi - b)), t)
                 if np.linalg.norm(xi - Tx) > abstol * (1 + 1e-6) + 1e-12 * (fs + np.linalg.norm(xi)):
                     ctx.fail(key + ":abstol-stop", desc, f"|x - prox-step(x)| <= abstol = {abstol}", float(np.linalg.norm(xi - Tx)),
                              "returned before maxit although the point is not an abstol-approximate fixed point")
-        if "mat" in res and "fun" in res and (res["mat"][1] != res["fun"][1] or not np.array_equal(res["mat"][0], res["fun"][0])):
+        if "mat" in res and "fun" in res and (res["mat"][1] != res["fun"][1] or not np.array_equal(res["mat"][0], res["fun"][0], equal_nan=True)):
             k2 = f"{name}:forms:{kind}"
             ctx.disagree(k2, desc, "identical", [res["mat"][0].tolist(), res["fun"][0].tolist()], "matrix and function forms differ")
             if res["mat"][1] != res["fun"][1] or not vclose(res["mat"][0], res["fun"][0], 1e-12):
@@ -614,6 +709,9 @@ def check_fista(ctx, rs, sc, FISTA, ProjectNonnegative, ProjectBox, ProximalL1):
             with quiet():
                 xi, ki = FISTA(op, b.copy(), x0.copy(), proxf, maxit=20000, stepsize=t, abstol=1e-11 * fs, adaptive=adaptive).solve()
             xi = np.asarray(xi, dtype=float)
+            if not np.all(np.isfinite(xi)):
+                ctx.fail(key, desc, "a finite fixed point", xi.tolist(), "returned point is not finite although data, start and regulariser are")
+                continue
             if ki >= 20000:
                 ctx.note(f"{name} did not reach abstol within 20000 iterations at {desc['A']} (not judged)")
                 continue
@@ -762,7 +860,10 @@ def lm_stop_oracle(ctx, key, desc, res, jac, x0, x, i, maxit, gradtol):
     """on return either all maxit iterations were used or |J(x)^T r(x)| <= gradtol*|J(x0)^T r(x0)| (relative; the only slack is
     the rounding floor of the product J^T r); a return with iterations left and a larger gradient is premature"""
     g0 = np.linalg.norm(jac(x0).T @ res(x0))
-    if g0 == 0 or gradtol < 0 or i >= maxit or not np.all(np.isfinite(x)):
+    if not np.all(np.isfinite(x)):
+        ctx.fail(key, desc, "finite point", np.asarray(x).tolist(), "LM returns a non-finite point for finite data")
+        return
+    if g0 == 0 or gradtol < 0 or i >= maxit:
         return
     J, r = jac(x), res(x)
     g = np.linalg.norm(J.T @ r)
@@ -804,6 +905,11 @@ def same(a, b):
 
 
 def check_wrappers(ctx, rs, sc, S, L_BFGS_B, minimize, maximize, LS):
+    # the model's L_BFGS_B table for every (warnflag, gradient) in ONE driver call
+    pre = [(wf, hg) for wf in (-1, 0, 1, 2, 3) for hg in (0, 1)]
+    for (wf, hg), out in zip(pre, ctx.lean.drive([f"lbfgsb {wf} {hg}" for wf, hg in pre])):
+        succ, ag, msg = out.split(" ", 2)
+        _LB[(wf, bool(hg))] = (int(succ), int(ag), msg)
     # deterministic smooth test functions (convex quadratic + quartic)
     for i in range(12 * sc):
         n = int(rs.randint(1, 4))
@@ -1151,7 +1257,11 @@ def check_generic(ctx, rs, sc, cuqi, CGLS, PCGLS, FISTA, LM, LS, L_BFGS_B, minim
     """implementation-only differential checks against the float64 / matrix-form / fresh-object run of the same solver
     (which the sections above tie to the exact model), plus the optimality oracles:
     G1 non-float64 inputs, G2 caller-owned objects untouched, G3 operators whose outputs are views of their inputs and
-    results not aliasing inputs, G5 call histories on one object, G6 falsy options (G4, the scale sweeps, is above)."""
+    results not aliasing inputs, G5 call histories on one object, G6 falsy options (G4, the scale sweeps, is above),
+    G7 memory layouts / read-only / ndarray subclasses, positional vs keyword arguments, callables returning the same
+    array object every call, G8 every returned array retained and re-verified at the end."""
+    from cuqi.array import CUQIarray
+    retained = []
     for rep_ in range(4 * sc):
         n = int(rs.randint(1, 5)); m = n + int(rs.randint(0, 3))
         A = gen_matrix(rs, m, n, False)
@@ -1194,6 +1304,7 @@ def check_generic(ctx, rs, sc, cuqi, CGLS, PCGLS, FISTA, LM, LS, L_BFGS_B, minim
                          "solver raises for an input that differs from the float64 one only by its dtype / container")
                 return None
             x = np.asarray(r[0]); k = int(r[1]["nfev"]) if isinstance(r[1], dict) else int(r[1])
+            retained.append((f"{name}:{tag}:{kind}", r[0], np.asarray(r[0]).tobytes(), desc))
             if x.dtype != np.float64 or k != base[name][1] or not vclose(x.astype(float), base[name][0], 1e-9):
                 ctx.fail(f"{name}:{tag}:{kind}:" + ("precision" if precision else "differs"), desc, [base[name][0].tolist(), base[name][1], "float64"],
                          [x.tolist(), k, str(x.dtype)], "result differs from the one for the float64 version of the same numbers")
@@ -1230,6 +1341,63 @@ def check_generic(ctx, rs, sc, cuqi, CGLS, PCGLS, FISTA, LM, LS, L_BFGS_B, minim
             if isinstance(xr, np.ndarray) and (np.shares_memory(xr, x0) or np.shares_memory(xr, b)):
                 ctx.fail(f"{name}:alias:result", {**desc0, "solver": name}, "result does not share memory with x0 / b", "shares memory",
                          "returned array aliases a caller-owned input")
+
+        # ---- G7: same numbers in another memory layout / read-only / ndarray subclass
+        def layouts(v):
+            big = np.zeros((2 * len(v),) + v.shape[1:]); big[::2] = v
+            ro = v.copy(); ro.setflags(write=False)
+            out = {"strided": big[::2], "negstride": v[::-1].copy()[::-1], "readonly": ro}
+            if v.ndim == 1:
+                out["CUQIarray"] = CUQIarray(v.copy())
+            else:
+                out["fortran"] = np.asfortranarray(v); out["transposed-view"] = np.ascontiguousarray(v.T).T
+            return out
+        for name, run_ in list(solvers.items()) + [("LM", None)]:
+            for lname, xv in layouts(x0).items():
+                before = snap([xv]) if type(xv) is np.ndarray else np.asarray(xv).tobytes()
+                if name == "LM":
+                    judge(name, "layout", "x0-" + lname, lambda: LM(resf, xv, jacf, maxit=200, sparse=False).solve())
+                else:
+                    judge(name, "layout", "x0-" + lname, lambda: run_(A, b, xv))
+                if (snap([xv]) if type(xv) is np.ndarray else np.asarray(xv).tobytes()) != before:
+                    ctx.fail(f"{name}:mutates-argument", {**desc0, "solver": name, "kind": "x0-" + lname}, "x0 untouched", "changed", "solver modifies an object owned by the caller")
+            if name == "LM":
+                continue
+            for lname, bv in layouts(b).items():
+                judge(name, "layout", "b-" + lname, lambda: run_(A, bv, x0))
+            for lname, Av in layouts(A).items():
+                judge(name, "layout", "A-" + lname, lambda: run_(Av, b, x0))
+        # ---- positional vs keyword passing of the (optional) arguments
+        ad = bool(rep_ % 2)
+        judge("CGLS", "argument-passing", "keywords", lambda: CGLS(A=A, b=b, x0=x0, maxit=60, tol=1e-10, shift=shift).solve())
+        judge("CGLS", "argument-passing", "mixed", lambda: CGLS(A, b, x0, shift=shift, tol=1e-10, maxit=60).solve())
+        if "PCGLS" in solvers:
+            judge("PCGLS", "argument-passing", "keywords", lambda: PCGLS(A=A, b=b, x0=x0, P=Psp, maxit=60, tol=1e-10, shift=0).solve())
+            judge("PCGLS", "argument-passing", "defaults", lambda: PCGLS(A, b, x0, Psp, 60, 1e-10).solve())
+        judge("FISTA", "argument-passing", "positional", lambda: FISTA(A, b, x0, prox, 4000, t, 1e-12, ad).solve())
+        judge("FISTA", "argument-passing", "keywords", lambda: FISTA(A=A, b=b, x0=x0, proximal=prox, adaptive=ad, abstol=1e-12, stepsize=t, maxit=4000).solve())
+        judge("LM", "argument-passing", "positional", lambda: LM(resf, x0.copy(), jacf, 200, 1e-6, 1e-8, 1e-3, False).solve())
+        judge("LM", "argument-passing", "keywords", lambda: LM(A=resf, x0=x0.copy(), jacfun=jacf, sparse=False, nu0=1e-3, gradtol=1e-8, tol=1e-6, maxit=200).solve())
+        # ---- callables returning the SAME array object on every call (one output buffer per direction)
+        bufs = {1: np.zeros(m), 2: np.zeros(n)}
+        def opbuf(x, flag, bufs=bufs):
+            np.matmul(A if flag == 1 else A.T, x, out=bufs[flag])
+            return bufs[flag]
+        for name, run_ in solvers.items():
+            judge(name, "same-object-operator", "buffer", lambda: run_(opbuf, b, x0))
+        rbuf = np.zeros(m)
+        def resbuf(x, rbuf=rbuf):
+            rbuf[...] = A @ x - b
+            return rbuf
+        try:
+            with quiet():
+                xq, iq = LM(resbuf, x0.copy(), jacf, maxit=200, sparse=False).solve()
+            xq = np.array(xq, dtype=float)
+            dq = {**desc0, "solver": "LM", "variant": "same-object-residual"}
+            ctx.case("generic-same-object-operator", dq)
+            lm_stop_oracle(ctx, "LM:same-object-operator:buffer", dq, resf, jacf, x0, xq, iq["nfev"], 200, 1e-8)
+        except Exception as e:
+            ctx.fail("LM:same-object-operator:buffer", {**desc0, "solver": "LM"}, "a stationary point", repr(e)[:100], "LM raises with a residual callable re-using its output array")
 
         # ---- G5: histories on one object (repeat, in-place update of the same argument arrays, attribute re-assignment)
         b2 = b + rs.randint(1, 4, size=m); x02 = 1.0 - x0
@@ -1315,6 +1483,8 @@ def check_generic(ctx, rs, sc, cuqi, CGLS, PCGLS, FISTA, LM, LS, L_BFGS_B, minim
                 except Exception as e:
                     ctx.fail(key, {**desc, "solver": name}, "a result", repr(e)[:100], "solver raises with a function-form operator returning views")
                     continue
+                retained.append((f"{name}:alias-operator:{oname}", xf, np.asarray(xf).tobytes(), {**desc, "solver": name}))
+                retained.append((f"{name}:alias-operator:{oname}", xm, np.asarray(xm).tobytes(), {**desc, "solver": name}))
                 xm = np.asarray(xm, dtype=float); xf = np.asarray(xf, dtype=float)
                 if snap([b, x0, Psp]) != before:
                     ctx.fail(f"{name}:mutates-argument", {**desc, "solver": name}, "b, x0, P untouched", "changed", "solver modifies an object owned by the caller")
@@ -1331,7 +1501,7 @@ def check_generic(ctx, rs, sc, cuqi, CGLS, PCGLS, FISTA, LM, LS, L_BFGS_B, minim
                         ctx.fail(key, {**desc, "solver": name}, [xm.tolist(), int(km)], [xf.tolist(), int(kf)], "result depends on the operator form")
                 else:
                     Tx = ref_prox("l1", {"lam": lam}, xf - t * (Mx.T @ (Mx @ xf - b)), t)
-                    if kf < 5000 and np.linalg.norm(xf - Tx) > 1e-9:
+                    if not np.all(np.isfinite(xf)) or (kf < 5000 and not (np.linalg.norm(xf - Tx) <= 1e-9)):
                         ctx.fail(key, {**desc, "solver": name}, "x = prox_t(x - t A^T(Ax-b))", float(np.linalg.norm(xf - Tx)),
                                  "with an operator returning views of its input the returned point is not a fixed point of the proximal-gradient map")
                     elif km != kf or not vclose(xm, xf, 1e-12):
@@ -1400,6 +1570,7 @@ def check_generic(ctx, rs, sc, cuqi, CGLS, PCGLS, FISTA, LM, LS, L_BFGS_B, minim
                 after = snap([xk]) if isinstance(xk, np.ndarray) else repr(xk)
                 if after != before:
                     ctx.fail(f"{wname}:mutates-argument", desc, "x0 untouched", "changed", "wrapper modifies the caller's start vector")
+                retained.append((f"{wname}:x0-dtype:{kind}", sol, np.asarray(sol).tobytes(), desc))
                 sol = np.asarray(sol)
                 todo = [("same-start", refs[0])] + ([("float64-start", refs[1])] if kind != "float32" else [])
                 for tag, ref in todo:
@@ -1415,3 +1586,10 @@ def check_generic(ctx, rs, sc, cuqi, CGLS, PCGLS, FISTA, LM, LS, L_BFGS_B, minim
                         ctx.fail(key, {**desc, "reference": tag}, {b_[0]: b_[1] for b_ in bad}, {b_[0]: b_[2] for b_ in bad},
                                  "wrapper does not return SciPy's result unchanged for this start vector (dtype / container)")
                         break
+
+    # ---- G8: every array returned above, kept untouched, still holds what it held when it was returned
+    for label, obj, raw, d in retained:
+        if np.asarray(obj).tobytes() != raw:
+            ctx.fail(label.split(":")[0] + ":retained-output", {**d, "label": label}, "returned array unchanged by later calls", "changed",
+                     "an array returned earlier was overwritten by a later call (re-used internal buffer / view into state)")
+    ctx.extra_cov["retained_outputs_verified"] = len(retained)
